@@ -204,8 +204,11 @@ def _labelings(L, canonical):
 
 def _enum_mean_grp(ctx, Lmax):
     rec = ctx.rec
-    for nd in (-9999, 0):
+    # ND = 3 and ND = 1 can be reached by partial sums of the valid cells (and ND = 1 also turns the symbol 1 into a missing cell)
+    for nd in (-9999, 0, 3, 1):
         for L in range(1, Lmax + 1):
+            if nd in (3, 1) and L > 5:
+                continue
             x, _ = _all_series(L, nd)
             labs = _labelings(L, canonical=(L >= 6))
             for g in labs:
@@ -231,7 +234,7 @@ def _enum_mean_grp(ctx, Lmax):
             mixed = int(((x == nd).any(axis=1) & (x != nd).any(axis=1)).sum())
             rec.bulk_nontrivial("mean_grp", {("m", nd, L, i) for i in range(min(mixed * len(labs), 300000))})
     rec.case("mean_grp", {"x": [1, -9999, 2, 0], "groups": [0, 1, 0, 1], "nodata": -9999}, count=0)
-    rec.exhaustive_parts.append("mean_grp: all series over {ND,-1,0,1,2} of length 1..%d x all labelings onto 0..k-1 (length 6: set partitions), ND in {-9999,0}" % Lmax)
+    rec.exhaustive_parts.append("mean_grp: all series over {ND,-1,0,1,2} of length 1..%d x all labelings onto 0..k-1 (length 6: set partitions), ND in {-9999,0} (ND in {3,1}: length <= 5)" % Lmax)
     return True
 
 
@@ -242,7 +245,7 @@ DT_BOUNDS = {"int16": 30000, "int32": 100000, "int64": 100000, "float32": 100000
 def long_series(draw, dtypes, nmax, grouped=False):
     dtype = draw(st.sampled_from(dtypes))
     n = draw(st.one_of(st.integers(1, 12), st.integers(1, nmax)))
-    nd = draw(st.sampled_from([-9999, 0, -32768, 255, 7]))
+    nd = draw(st.sampled_from([-9999, 0, -32768, 255, 7, 3, 100]))
     vmax = min(DT_BOUNDS[dtype], (2 ** 24 - 1) // max(n, 1))
     p_nd = draw(st.sampled_from([0, 10, 30, 60]))
     x = [nd if draw(st.integers(0, 99)) < p_nd else draw(st.integers(-vmax, vmax)) for _ in range(n)]
